@@ -123,10 +123,19 @@ func (sch *Scheduler) requeue(ent container.QueueEnt, reason string) {
 		return
 	}
 	defer sch.uuidUnlock(uuid)
-	if cur, ok := sch.queue.Get(uuid); !ok || cur.State != arvados.ContainerStateLocked {
-		// The snapshot this decision was based on is stale
-		// (e.g., already requeued and locked again by a later
-		// pass): do nothing, like lockContainer does.
+	cur, ok := sch.queue.Get(uuid)
+	if !ok || cur.State != arvados.ContainerStateLocked {
+		// The snapshot this decision was based on is stale:
+		// do nothing, like lockContainer does.
+		return
+	}
+	// Re-check the reason as well: the container may have been
+	// requeued and locked again since the snapshot was taken, in
+	// which case the "exited" placeholder of the old process has
+	// been forgotten and runQueue may be starting it right now.
+	if exited, running := sch.pool.Running()[uuid]; running && exited.IsZero() {
+		return
+	} else if !running && cur.Priority > 0 {
 		return
 	}
 	logger := sch.logger.WithFields(logrus.Fields{
